@@ -44,7 +44,11 @@ def main() -> None:
 
     def new(inst, cfg):
         d = job["cfgs"][cfg]
-        scanners[inst] = Multidecoder(build_registry(d) if d else None)
+        if isinstance(d, dict):    # a full configuration: keyword directory, include list, exclude list
+            reg = build_registry(d.get("dir", ""), include=d.get("include"), exclude=d.get("exclude"))
+            scanners[inst] = Multidecoder(reg)
+        else:
+            scanners[inst] = Multidecoder(build_registry(d) if d else None)
         emit({"ev": "NewScanner", "proc": proc, "inst": inst, "cfg": cfg})
 
     def scan(thread, inst, x, k):
@@ -58,7 +62,10 @@ def main() -> None:
     inputs = job["inputs"]
     ks = job["ks"]
     if job["mode"] == "seq":
-        for cfg in job["cfgs"]:
+        order = list(job["cfgs"])
+        if job.get("reverse"):
+            order.reverse()
+        for cfg in order:
             inst = f"{proc}/{cfg}/fresh"
             new(inst, cfg)
             for x in inputs:
